@@ -414,6 +414,9 @@ def _run_task(i):
     sub.queries, sub.inconclusive, sub.harness_errors, sub._vac_cache = [], [], [], {}
     sub.harness_error = lambda msg: sub.harness_errors.append(msg)
     t0 = time.time()
+    if "build" in t:  # obligations constructed in the worker (term construction can dominate)
+        t = dict(t)
+        t.update(t["build"]())
     if t.get("expect") == "sat":
         r, mdl = sub.witness(t["name"], t["assumptions"], ex=t.get("ex"), timeout=t.get("timeout"), expect=t.get("expect_strict"))
         verdict = {"sat": "cex", "unsat": "holds", "unknown": "unknown"}[r]
